@@ -273,6 +273,63 @@ fn bursts(seed: u64, threads: usize, nlocks: usize, rounds: usize, per_round: us
     check_history(&all, &finals, overlap.load(Ordering::SeqCst), violations)
 }
 
+/// A closure that panics inside `apply` (the fault), then ordinary traffic on the same lock from every thread.
+/// What a call does after the lock was poisoned is not specified here (the unchanged code panics at once); what
+/// is demanded is progress: every call returns or unwinds, none blocks forever. Decided on progress: a stall is
+/// declared when no call has finished for 20 s although calls are outstanding.
+fn poison_history(seed: u64, threads: usize, ops_per_thread: usize, miri: bool) -> Outcome {
+    let lock: Arc<StdLock<Vec<u64>>> = Arc::new(StdLock::new(Vec::new()));
+    let finished = Arc::new(AtomicU64::new(0));
+    let calls = Arc::new(AtomicU64::new(0));
+    let mut handles = vec![];
+    for t in 0..threads {
+        let (lock, finished, calls) = (lock.clone(), finished.clone(), calls.clone());
+        handles.push(std::thread::spawn(move || {
+            for k in 0..ops_per_thread {
+                let h = mix(seed ^ ((t as u64) << 32) ^ k as u64);
+                delay(h >> 3, miri);
+                let faulty = t == 0 && k == ops_per_thread / 2;
+                let _ = std::panic::catch_unwind(std::panic::AssertUnwindSafe(|| {
+                    lock.apply(|v| {
+                        if faulty {
+                            panic!("injected fault inside the closure");
+                        }
+                        v.push(h);
+                        v.len()
+                    })
+                }));
+                calls.fetch_add(1, Ordering::SeqCst);
+            }
+            finished.fetch_add(1, Ordering::SeqCst);
+        }));
+    }
+    let mut violations = vec![];
+    let (mut last, mut t_last) = (0u64, std::time::Instant::now());
+    while finished.load(Ordering::SeqCst) < threads as u64 {
+        if miri {
+            std::thread::yield_now();
+            continue;
+        }
+        std::thread::sleep(std::time::Duration::from_millis(5));
+        let c = calls.load(Ordering::SeqCst);
+        if c != last {
+            last = c;
+            t_last = std::time::Instant::now();
+        } else if t_last.elapsed().as_secs() >= 20 {
+            violations.push(format!(
+                "after a closure panicked inside apply, {} of {threads} threads are blocked in apply: no call returned or unwound for 20 s ({c} of {} calls finished): deadlock",
+                threads as u64 - finished.load(Ordering::SeqCst),
+                threads * ops_per_thread
+            ));
+            return Outcome { ops: c as usize, violations, switches: 0, signature: 0 };
+        }
+    }
+    for h in handles {
+        let _ = h.join();
+    }
+    Outcome { ops: calls.load(Ordering::SeqCst) as usize, violations, switches: 0, signature: seed }
+}
+
 fn main() {
     let argv: Vec<String> = std::env::args().collect();
     let get = |name: &str, default: u64| -> u64 {
@@ -287,6 +344,11 @@ fn main() {
     let vary = argv.iter().any(|a| a == "--vary");
     let bursts_n = get("--bursts", 0) as usize;
     let per_round = get("--per-round", 1) as usize;
+    let poison = argv.iter().any(|a| a == "--poison");
+    if poison {
+        // the injected panics are expected: keep them off the output
+        std::panic::set_hook(Box::new(|_| {}));
+    }
     let t0 = std::time::Instant::now();
     let (mut total_ops, mut switches, mut nviol) = (0usize, 0u64, 0usize);
     let mut sigs = std::collections::BTreeSet::new();
@@ -294,8 +356,14 @@ fn main() {
     for h in 0..histories {
         let s = mix(seed.wrapping_mul(1_000_003).wrapping_add(h));
         let (t, l, o) = if vary { (2 + (s % (threads as u64 - 1).max(1)) as usize, 1 + ((s >> 8) % locks as u64) as usize, ops) } else { (threads, locks, ops) };
-        let out = if bursts_n > 0 { bursts(s, t, l, bursts_n, per_round, miri) } else { history(s, t, l, o, miri) };
-        let hung = out.violations.iter().any(|v| v.contains("still had not returned"));
+        let out = if poison {
+            poison_history(s, t, o, miri)
+        } else if bursts_n > 0 {
+            bursts(s, t, l, bursts_n, per_round, miri)
+        } else {
+            history(s, t, l, o, miri)
+        };
+        let hung = out.violations.iter().any(|v| v.contains("still had not returned") || v.contains("are blocked in apply"));
         total_ops += out.ops;
         switches += out.switches;
         sigs.insert(out.signature);
